@@ -12,7 +12,7 @@ Per run:
       returned point re-evaluated);
   (3) Misc.perturb_params with numpy.random.uniform replaced by given draws: model correspondence + "stays in bounds".
 """
-import ast, itertools, json, math, os
+import ast, itertools, json, math, os, re
 from fractions import Fraction
 from harness import lib
 from harness.lib import q, ql, b
@@ -28,12 +28,16 @@ SCIPY_FNS = ['optimize', 'optimize_log', 'optimize_lbfgsb', 'optimize_log_lbfgsb
 FN_TAG = {'opt': 'FOpt', 'optimize': 'FOptimize', 'optimize_log': 'FOptimizeLog', 'optimize_lbfgsb': 'FLbfgsb',
           'optimize_log_lbfgsb': 'FLogLbfgsb', 'optimize_log_fmin': 'FLogFmin', 'optimize_log_powell': 'FLogPowell',
           'optimize_cons': 'FCons', 'optimize_grid': 'FGrid'}
-# the model's configuration table (Model/Optim.v cfg_*): objective works on exp(x) / start is log(p0) / result is exp'd /
+# forms of the original snapshot (Model/Optim.v cfg_*_snapshot); the descriptor reader accepts them too, the defect they
+# carry is then reported by the property clauses with a concrete input
+CFG_SNAPSHOT = {'optimize_lbfgsb':     (False, True, False, False, 'BPlain', True),
+                'optimize_log_lbfgsb': (True,  True, True,  False, 'BLog',   True)}
+# the model's configuration table (Model/Optim.v cfg_*), current code: objective works on exp(x) / start is log(p0) / result is exp'd /
 # bounds go to _object_func / bounds handed to the optimiser / ll_scale forwarded
 CFG = {'optimize':            (False, False, False, True,  'BNone',  True),
        'optimize_log':        (True,  True,  True,  True,  'BNone',  True),
-       'optimize_lbfgsb':     (False, True,  False, False, 'BPlain', True),
-       'optimize_log_lbfgsb': (True,  True,  True,  False, 'BLog',   True),
+       'optimize_lbfgsb':     (False, False, False, False, 'BPlain', True),
+       'optimize_log_lbfgsb': (True,  True,  True,  False, 'BLogNone', True),
        'optimize_log_fmin':   (True,  True,  True,  True,  'BNone',  False),
        'optimize_log_powell': (True,  True,  True,  True,  'BNone',  False),
        'optimize_cons':       (False, False, False, False, 'BPlain', True)}
@@ -98,14 +102,28 @@ def wrapper_descriptor(fn_node):
     assigns = [n for n in ast.walk(fn_node) if isinstance(n, ast.Assign) and _src(n.targets[0]) in ('lower_bound', 'upper_bound')
                and 'numpy.log' in _src(n.value)]
     whole = [n for n in assigns if _src(n.value) in ('numpy.log(lower_bound)', 'numpy.log(upper_bound)')]
-    entrywise = [n for n in assigns if _src(n.value) in ('[NoneifbisNoneelsenumpy.log(b)forbinlower_bound]', '[NoneifbisNoneelsenumpy.log(b)forbinupper_bound]')]
+    # current form, two comprehensions per bound:  [None if v is None else numpy.log(v) for v in B]  and then
+    # [None if (v is not None and numpy.isnan(v)) else v for v in B]   (nan, the log of a negative bound, becomes "no bound")
+    def norm(n):
+        val = n.value
+        if isinstance(val, ast.ListComp) and len(val.generators) == 1 and isinstance(val.generators[0].target, ast.Name):
+            v = val.generators[0].target.id
+            class Ren(ast.NodeTransformer):
+                def visit_Name(self, node):
+                    return ast.copy_location(ast.Name(id='V', ctx=node.ctx), node) if node.id == v else node
+            val = Ren().visit(ast.parse(ast.unparse(val), mode='eval').body)
+        return ast.unparse(val).replace(' ', '')
+    entrywise = [n for n in assigns if norm(n) in ('[NoneifVisNoneelsenumpy.log(V)forVinlower_bound]', '[NoneifVisNoneelsenumpy.log(V)forVinupper_bound]')]
+    nan_none = [n for n in ast.walk(fn_node) if isinstance(n, ast.Assign) and _src(n.targets[0]) in ('lower_bound', 'upper_bound')
+                and norm(n) in ('[NoneifVisnotNoneandnumpy.isnan(V)elseVforVinlower_bound]', '[NoneifVisnotNoneandnumpy.isnan(V)elseVforVinupper_bound]')]
+    other_nan = [n for n in ast.walk(fn_node) if isinstance(n, ast.Assign) and 'isnan' in _src(n) and n not in nan_none]
     if bkw is None:
         mode = 'BNone'
     elif not assigns:
         mode = 'BPlain'
-    elif len(whole) == 2 and len(assigns) == 2:
-        mode = 'BLog'
-    elif len(entrywise) == 2 and len(assigns) == 2:
+    elif len(whole) == 2 and len(assigns) == 2 and len(other_nan) == 2 and not nan_none:
+        mode = 'BLog'            # snapshot: numpy.log(list); B[numpy.isnan(B)] = None
+    elif len(entrywise) == 2 and len(assigns) == 2 and len(nan_none) == 2 and not other_nan:
         mode = 'BLogNone'
     else:
         mode = '?'
@@ -127,10 +145,8 @@ def descriptor_obligations(ctx):
             continue
         found[fn] = d
         expect = [CFG[fn]]
-        if fn == 'optimize_lbfgsb':
-            expect.append((False, False, False, False, 'BPlain', True))     # repaired form
-        if fn == 'optimize_log_lbfgsb':
-            expect.append((True, True, True, False, 'BLogNone', True))      # repaired form
+        if fn in CFG_SNAPSHOT:
+            expect.append(CFG_SNAPSHOT[fn])
         ctx.obligation('descriptor of Inference.%s = model configuration %s' % (fn, 'cfg_' + fn), d in expect, 'translator',
                        '' if d in expect else 'source: %r, model: %r' % (d, CFG[fn]))
     # the test order inside _object_func: bound tests, then the model call, then the NaN guard
@@ -180,7 +196,7 @@ def xnum_list(xs):
     return '[' + '; '.join(out) + ']'
 
 def variants_of(c):
-    """model variants a scripted case is compared with: 0 = the snapshot, 1.. = the repaired forms (Model/OptimCheck.v)"""
+    """model variants a scripted case is compared with: 0 = the current code, 1.. = forms of the snapshot (Model/OptimCheck.v)"""
     if c['fn'] == 'opt' and c.get('log_opt'):
         return (0, 1, 2)
     if c['fn'] in ('optimize_lbfgsb', 'optimize_log_lbfgsb', 'optimize_grid'):
@@ -321,7 +337,7 @@ def gen_one_scripted(rng, fn, log_opt, n, pat):
             uhi[rng.randrange(n)] = None
     elif style < 0.43 and fn == 'optimize_log_lbfgsb':
         ulo[rng.randrange(n)] = None                    # documented, but numpy.log raises: both worlds must agree on that
-    if fn == 'opt' and log_opt and ulo is not None and rng.random() < 0.25:
+    if (fn == 'opt' and log_opt or fn == 'optimize_log_lbfgsb') and ulo is not None and rng.random() < 0.25:
         ulo[rng.randrange(n)] = rng.choice([0.0, -1.0])  # log -> -inf / nan, exactly as written
     c['lower'], c['upper'] = ulo, uhi
     nanthr = [c['llm'].get('nan'), c['llp'].get('nan')]
@@ -651,8 +667,8 @@ def run_scripted(ctx, cases, seen):
                 fails = [f for f in fails if f[0] not in ('model-evaluated-out-of-bounds', 'returned-free-parameter-out-of-bounds')]
             report(ctx, cc, fails, r, 'scripted', seen)
     results = ctx.coq_cases('scripted', HEADER, exprs, '(ocheck %s)' % q(TOL), TOL_TXT, shard=ctx.pick(40, 120), kind='scripted optimiser')
-    # a case is fine when the model variant of the snapshot or the repaired variant reproduces it; all cases of one
-    # wrapper must agree on the variant
+    # a case is fine when the model of the current code or a variant carrying a form of the snapshot reproduces it; all
+    # cases of one wrapper must agree on the variant
     per_case = {}
     ctx.max_err.pop('scripted optimiser', None)          # report the error of the accepted comparisons only
     for k, (c, variant) in meta.items():
@@ -682,7 +698,7 @@ def run_scripted(ctx, cases, seen):
         ctx.obligation('all scripted cases of %s agree with one model variant' % tag, bool(good), 'correspondence', repr(good))
         if good:
             v = min(good)
-            ctx.notes.append('%s: source agrees with model variant %d (%s)' % (tag, v, 'snapshot, defective' if v == 0 else 'repaired'))
+            ctx.notes.append('%s: source agrees with model variant %d (%s)' % (tag, v, 'current, repaired form' if v == 0 else 'form of the snapshot, defective'))
             ctx.count('variant %s=%d' % (tag, v))
     return byid
 
@@ -864,7 +880,7 @@ def run_perturb(ctx, cases, seen):
                               no_input=True, broken='perturb_params correspondence')
     ctx.obligation('all perturb cases agree with one model variant', len(votes) <= 1, 'correspondence', repr(votes))
     if len(votes) == 1:
-        ctx.notes.append('perturb_params: source agrees with the %s model variant' % ('repaired' if True in votes else 'snapshot (defective)'))
+        ctx.notes.append('perturb_params: source agrees with the %s model variant' % ('snapshot (defective)' if True in votes else 'current (sign-aware)'))
 
 # ------------------------------------------------------------------------------------------------
 
